@@ -32,6 +32,81 @@ type helloSpec struct {
 	sni        []sniEntry
 	noExtBlock bool // TLS 1.2 form without any extensions block
 	quicTP     bool // append a quic_transport_parameters extension (QUIC hellos)
+	// one bulky extension that decides the size of the hello (large-hello family): kind, position in the emitted
+	// extension list (0 = first, len(exts) = last) and the exact length of its extension_data
+	bulkKind int
+	bulkAt   int
+	bulkLen  int
+}
+
+// bulky extensions a real client sends: RFC 7685 padding (all zero), a post-quantum sized key_share, a long ALPN list,
+// a pre_shared_key with a long ticket identity (always the last extension, RFC 8446 section 4.2.11).
+const (
+	bulkNone = iota
+	bulkPadding
+	bulkKeyShare
+	bulkALPN
+	bulkPSK
+)
+
+var bulkKindName = [...]string{"none", "padding", "key_share", "alpn", "psk"}
+var bulkMinLen = [...]int{0, 0, 7, 4, 44}
+
+func patternBytes(n, salt int) []byte {
+	b := make([]byte, n)
+	for i := range b {
+		b[i] = byte(i*31 + i>>8 + salt)
+	}
+	return b
+}
+
+// bulkData: extension type and an extension_data of exactly n bytes, well-formed for its kind.
+func bulkData(kind, n int) (typ int, data []byte) {
+	switch kind {
+	case bulkPadding:
+		return 21, make([]byte, n)
+	case bulkKeyShare: // client_shares<0..2^16-1>: group(2) key_exchange<1..2^16-1>
+		data = append(be16(n-2), 0x11, 0xec)
+		data = append(data, be16(n-6)...)
+		return 51, append(data, patternBytes(n-6, 5)...)
+	case bulkALPN: // ProtocolName protocol_name_list<2..2^16-1>, ProtocolName = opaque<1..2^8-1>
+		data = be16(n - 2)
+		for left := n - 2; left > 0; {
+			e := left
+			if e > 256 {
+				e = 256
+			}
+			if left-e == 1 {
+				e--
+			}
+			data = append(data, byte(e-1))
+			data = append(data, patternBytes(e-1, 'a')...)
+			left -= e
+		}
+		return 16, data
+	case bulkPSK: // identities<7..>: identity<1..> obfuscated_ticket_age(4); binders<33..>: PskBinderEntry<32..255>
+		x := n - 43
+		data = be16(2 + x + 4)
+		data = append(data, be16(x)...)
+		data = append(data, patternBytes(x, 9)...)
+		data = append(data, 1, 2, 3, 4)
+		data = append(data, be16(33)...)
+		data = append(data, 32)
+		return 41, append(data, patternBytes(32, 77)...)
+	}
+	panic("bulk kind")
+}
+
+// sizedHello: the spec with its bulky extension sized so that the handshake message is exactly hsLen bytes long
+// (ok=false when the bulky extension would have to be shorter than its kind allows).
+func sizedHello(h helloSpec, hsLen int) (helloSpec, bool) {
+	h.bulkLen = bulkMinLen[h.bulkKind]
+	base := len(buildHello(h).hs)
+	if hsLen < base {
+		return h, false
+	}
+	h.bulkLen += hsLen - base
+	return h, true
 }
 
 func (h helloSpec) String() string {
@@ -43,7 +118,11 @@ func (h helloSpec) String() string {
 	for _, x := range h.sni {
 		s = append(s, string('0'+x.typ)+":"+x.name)
 	}
-	return "tls1." + string(rune('0'+h.ver-10)) + " sid=" + itoa(h.sidLen) + " cs=" + itoa(h.nCS) + " exts=[" + strings.Join(e, ",") + "] sni=[" + strings.Join(s, " ") + "]"
+	bulk := ""
+	if h.bulkKind != bulkNone {
+		bulk = " bulk=" + bulkKindName[h.bulkKind] + ":" + itoa(h.bulkLen) + "@" + itoa(h.bulkAt)
+	}
+	return "tls1." + string(rune('0'+h.ver-10)) + " sid=" + itoa(h.sidLen) + " cs=" + itoa(h.nCS) + " exts=[" + strings.Join(e, ",") + "] sni=[" + strings.Join(s, " ") + "]" + bulk
 }
 
 func itoa(n int) string {
@@ -118,6 +197,13 @@ func buildHello(h helloSpec) builtHello {
 		out.fields = append(out.fields, lenField{"exts", extLenOff, 2})
 		b = append(b, 0, 0)
 		kinds := append([]int(nil), h.exts...)
+		if h.bulkKind != bulkNone {
+			at := h.bulkAt
+			if at > len(kinds) {
+				at = len(kinds)
+			}
+			kinds = append(kinds[:at:at], append([]int{-2}, kinds[at:]...)...)
+		}
 		if h.quicTP {
 			kinds = append(kinds, -1)
 		}
@@ -160,6 +246,8 @@ func buildHello(h helloSpec) builtHello {
 			case extPAD:
 				typ = 21
 				data = make([]byte, 7)
+			case -2:
+				typ, data = bulkData(h.bulkKind, h.bulkLen)
 			case -1:
 				typ = 0x39
 				data = []byte{0x01, 0x02, 0x67, 0x10, 0x03, 0x02, 0x45, 0xc0}
